@@ -4,6 +4,7 @@ import VaxisModel.Model.ImageTerm
 import VaxisModel.Model.Blocks
 import VaxisModel.Model.Placements
 import VaxisModel.Model.ImageDraw
+import VaxisModel.Model.Scaler
 import VaxisModel.Spec.Images
 
 /-! Driver for C20.  Lines (`op<TAB>impl` → `model-canon<TAB>impl-canon<TAB>verdict`), see
@@ -136,16 +137,18 @@ def parsePixels (W H : Nat) (hexs : String) : Option (Array Pix8) := do
 def pixAt (W H : Nat) (px : Array Pix8) (x y : Nat) : Pix8 :=
   if x < W ∧ y < H then px.getD (y * W + x) ⟨0, 0, 0, 0⟩ else ⟨0, 0, 0, 0⟩
 
-/-- Model side of a `half`/`full` line. -/
-def blockModel (half : Bool) (W H : Nat) (px : Array Pix8) (bw bh : Nat) (col row : Nat) (ww wh : Int) : String :=
+/-- Model side of a `half`/`full` (`*image.NRGBA` source) or `halfp`/`fullp` (`*image.RGBA` source) line: the whole
+    path of `Model/Scaler.lean` — fit test, float steps, nearest-neighbour scaling, pixel pairs → cells — then the
+    window clipping. -/
+def blockModel (half : Bool) (kind : Scaler.Kind) (W H : Nat) (px : Array Pix8) (bw bh : Nat) (col row : Nat) (ww wh : Int) : String :=
   let geom := if half then Gen.ImageConsts.halfBlockGeom else Gen.ImageConsts.fullBlockGeom
-  match resizeDims floatOps W H bw bh geom.1 geom.2 with
+  let src : Scaler.Img8 := ⟨kind, W, H, px.map fun p => ⟨p.r, p.g, p.b, p.a⟩⟩
+  match Scaler.resizeImg floatOps src bw bh geom.1 geom.2 with
   | .error _ => "panic"
-  | .ok (pw, ph) =>
-    let size := s!"{pw} {blockHeight ph}"
-    if (pw, ph) ≠ (W, H) then size ++ ";scaled" else
-    let img : Img := ⟨W, H, px.map fun p => c16of (nrgbaRGBA p.r p.g p.b p.a)⟩
-    let cells := if half then Blocks.halfCells img else Blocks.fullCells img
+  | .ok img =>
+    let size := s!"{img.w} {blockHeight img.h}"
+    let view := img.view
+    let cells := if half then Blocks.halfCells view else Blocks.fullCells view
     let width := childExtent col ww screenW
     let height := childExtent row wh screenH
     let drawn := cells.filter fun (x, y, c) =>
@@ -215,7 +218,7 @@ def fullExpected (t b : Pix8) (c : ICell) : Option String :=
     else bad s!"background {c.bg} is not the mean of ({t.r},{t.g},{t.b},{t.a}) and ({b.r},{b.g},{b.b},{b.a})"
 
 /-- Oracle side of a `half`/`full` line, evaluated on what the implementation drew. -/
-def blockVerdict (half : Bool) (W H : Nat) (px : Array Pix8) (bw bh : Nat) (col row : Nat) (ww wh : Int)
+def blockVerdict (half premult : Bool) (W H : Nat) (px : Array Pix8) (bw bh : Nat) (col row : Nat) (ww wh : Int)
     (impl : String) : String :=
   if impl = "panic" then "FAIL panic" else
   match impl.splitOn ";" with
@@ -239,20 +242,41 @@ def blockVerdict (half : Bool) (W H : Nat) (px : Array Pix8) (bw bh : Nat) (col 
                 some s!"cell {c.x},{c.y} outside the window"
               else if c.x - col ≥ cw ∨ c.y - row ≥ chh then some s!"cell {c.x},{c.y} outside the image"
               else if scaled then
-                -- rescaled image: for an all-opaque source the half-block cell must show colours of source pixels
-                -- (`Props.C20Ext.resized_opaque_half` under the scaler hypothesis `ScalerPicks`, checked here)
+                -- rescaled image, all-opaque source (independent of the scaler's index formula): each colour shown must
+                -- be the colour of a source pixel that lies *under* the cell — source pixel (sx, sy) overlaps the area
+                -- that pixel (x, y2) of the resized image covers; the resized pixel height is 2·rows or 2·rows − 1.
+                -- Half block: ▀ with fg under (x, 2y), bg under (x, 2y+1) (default colour when there is no such row);
+                -- full block: the channel-wise mean of two such pixels (the upper one alone in a last odd row).
                 let allOpaque := px.all fun p => p.a == 255
-                let isSrc (v : Nat) : Bool := px.any fun p => v == 2 ^ 25 + p.r * 65536 + p.g * 256 + p.b
-                if half && allOpaque && W * H > 0 then
-                  if c.glyph ≠ "e29680" then some s!"cell {c.x},{c.y}: rescaled opaque image, glyph is not the upper half block"
-                  else if !isSrc c.fg then some s!"cell {c.x},{c.y}: foreground {c.fg} is not the colour of any source pixel"
-                  else if !(isSrc c.bg || (c.bg == 0 && c.y - row + 1 == chh)) then
-                    some s!"cell {c.x},{c.y}: background {c.bg} is not the colour of any source pixel"
+                let under (d s dn q : Nat) : Bool := q * dn < (d + 1) * s && d * s < (q + 1) * dn
+                let x := c.x - col
+                let y := c.y - row
+                let colourOf (p : Pix8) : Nat := 2 ^ 25 + p.r * 65536 + p.g * 256 + p.b
+                let srcUnder (ph y2 : Nat) : List Pix8 :=
+                  (List.range W).flatMap fun sx => if under x W cw sx then
+                    (List.range H).filterMap fun sy => if under y2 H ph sy then some (pixAt W H px sx sy) else none
+                  else []
+                let okFor (ph : Nat) : Bool :=
+                  if half then
+                    (srcUnder ph (2 * y)).any (fun p => colourOf p == c.fg) &&
+                    (if 2 * y + 1 < ph then (srcUnder ph (2 * y + 1)).any (fun p => colourOf p == c.bg) else c.bg == 0)
+                  else
+                    (srcUnder ph (2 * y)).any fun t =>
+                      if 2 * y + 1 < ph then (srcUnder ph (2 * y + 1)).any fun b =>
+                        c.bg == colourOf ⟨(t.r + b.r) / 2, (t.g + b.g) / 2, (t.b + b.b) / 2, 255⟩
+                      else c.bg == colourOf t
+                if allOpaque && !premult && W * H > 0 then
+                  if half ∧ c.glyph ≠ "e29680" then some s!"cell {c.x},{c.y}: rescaled opaque image, glyph is not the upper half block"
+                  else if ¬ half ∧ (c.glyph ≠ "20" ∨ c.fg ≠ 0) then some s!"cell {c.x},{c.y}: not a space with default foreground"
+                  else if !(okFor (2 * chh) || okFor (2 * chh - 1)) then
+                    some s!"cell {c.x},{c.y}: colours {c.fg}/{c.bg} are not those of the source pixels under the cell"
                   else go rest (n + 1)
                 else go rest (n + 1)
               else
                 let t := pixAt W H px (c.x - col) (2 * (c.y - row))
-                let b := pixAt W H px (c.x - col) (2 * (c.y - row) + 1)
+                -- a full-block cell in the last row of an odd height covers one source pixel only: the mean of the
+                -- pixels it covers is that pixel (F220)
+                let b := if !half && 2 * (c.y - row) + 1 ≥ H then t else pixAt W H px (c.x - col) (2 * (c.y - row) + 1)
                 match (if half then halfExpected t b c else fullExpected t b c) with
                 | some why => some why
                 | none => go rest (n + 1)
@@ -265,7 +289,7 @@ def blockVerdict (half : Bool) (W H : Nat) (px : Array Pix8) (bw bh : Nat) (col 
             let x := i % cw
             let y := i / cw
             let t := pixAt W H px x (2 * y)
-            let b := pixAt W H px x (2 * y + 1)
+            let b := if !half && 2 * y + 1 ≥ H then t else pixAt W H px x (2 * y + 1)
             let visible := if half then ¬ (t.a < 50 ∧ b.a < 50) else ¬ ((t.a + b.a) / 2 < 50)
             let inside := (x : Int) < width && (y : Int) < height && col + x < screenW && row + y < screenH
             visible && inside && !(cellStrs.any fun s => s.startsWith s!"{col + x},{row + y}:")
@@ -586,17 +610,19 @@ def step (s : St) (line : String) : St × String :=
     | some (c :: cs) => (s, s!"{showC8 (Blocks.averageColor c cs)}\t{impl}\t-")
     | _ => (s, bad)
   | [kind, W, H, hexs, bw, bh, col, row, ww, wh] =>
-    if kind = "half" ∨ kind = "full" then
+    if kind = "half" ∨ kind = "full" ∨ kind = "halfp" ∨ kind = "fullp" then
       match natList? [W, H, bw, bh, col, row], ww.toInt?, wh.toInt? with
       | some [W, H, bw, bh, col, row], some ww, some wh =>
         match parsePixels W H hexs with
         | some px =>
-          let half := kind = "half"
-          let m := blockModel half W H px bw bh col row ww wh
-          let ic := if m.endsWith ";scaled" then
-                      (match impl.splitOn ";" with | sz :: _ => sz ++ ";scaled" | [] => impl)
-                    else impl
-          (s, s!"{m}\t{ic}\t{blockVerdict half W H px bw bh col row ww wh impl}")
+          let half := kind.startsWith "half"
+          let premult := kind.endsWith "p"
+          let m := blockModel half (if premult then .rgba else .nrgba) W H px bw bh col row ww wh
+          -- the oracles speak about straight colours: a premultiplied source pixel (c ≤ a) stands for c·255/a
+          let straight := if premult then px.map fun p =>
+              if p.a = 0 then ⟨0, 0, 0, 0⟩ else ⟨p.r * 255 / p.a, p.g * 255 / p.a, p.b * 255 / p.a, p.a⟩
+            else px
+          (s, s!"{m}\t{impl}\t{blockVerdict half premult W H straight bw bh col row ww wh impl}")
         | none => (s, bad)
       | _, _, _ => (s, bad)
     else (s, bad)
